@@ -182,7 +182,12 @@ def mul(a, b):
     lo = min(c[0] for c in cands)
     hi = max(c[0] for c in cands)
     r = Iv(lo, hi, all(c[1] for c in cands if c[0] == lo), all(c[1] for c in cands if c[0] == hi))
-    r.nan = a.nan or b.nan or ((math.isinf(a.lo) or math.isinf(a.hi)) and b.contains_zero_raw()) and False
+    def may_be_inf(x):
+        # a CLOSED infinite end point means the value itself may be infinite; an open one only "unbounded but finite"
+        # (only a value that IS infinite — a literal: an unbounded closed end produced by widening stands for "no overflow assumed",
+        # the premise all range rules share)
+        return math.isinf(x.lo) and x.lo == x.hi
+    r.nan = a.nan or b.nan or (may_be_inf(a) and b.contains_zero_raw() and not b.nonzero()) or (may_be_inf(b) and a.contains_zero_raw() and not a.nonzero())   # 0 * inf
     r.nz = a.nonzero() and b.nonzero()   # no underflow premise
     if r.nz and r.lo == 0:
         r.lo_open = True
@@ -250,6 +255,12 @@ def maxv(a, b):
     r = Iv(max(a.lo, b.lo), max(a.hi, b.hi))
     r.lo_open = (a.lo_open if a.lo > b.lo else b.lo_open if b.lo > a.lo else (a.lo_open and b.lo_open))
     r.hi_open = (a.hi_open if a.hi > b.hi else b.hi_open if b.hi > a.hi else (a.hi_open and b.hi_open))
+    r.nan = a.nan and b.nan
+    # f64::max IGNORES a NaN operand: if a may be NaN the result may be b alone (and vice versa), whatever a's bounds say
+    if a.nan:
+        r = r.join(Iv(b.lo, b.hi, b.lo_open, b.hi_open, nan=r.nan))
+    if b.nan:
+        r = r.join(Iv(a.lo, a.hi, a.lo_open, a.hi_open, nan=r.nan))
     r.nan = a.nan and b.nan
     return r
 
